@@ -676,6 +676,74 @@ theorem C12_bind_reply (remote reqId : String) (reqRes : Option String) (reqTo r
     (cb ≠ .default → (server remote reqId reqRes reqTo reqFrom cb).cbArgs = some (remote, reqRes.getD "")) := by
   cases cb <;> simp [server, hto, hfrom] <;> (intro q hq; subst hq; simp)
 
+/-! ### Round E: the stanza's own attributes are the unqualified ones (review B, C12-1) -/
+
+/-- the stanza's own attribute only depends on the unqualified attributes of the start element -/
+theorem iqField_own (attrs : List Bind.Attr) (loc : String) :
+    iqField attrs loc = iqField (attrs.filter Bind.Attr.own) loc := by
+  unfold iqField
+  rw [List.filter_filter]
+  congr 2
+  apply List.filter_congr
+  intro a _
+  cases h : a.own <;> simp [h]
+
+/-- **The request's id is the request's id.**  The receiver answers with the value of the
+UNQUALIFIED `id` attribute of the request (the empty id when there is none), addresses the reply
+to the unqualified `from` and from the unqualified `to` — and two requests whose start elements
+have the same unqualified attributes are served identically: attributes called `id`, `type`, `to`,
+`from` in ANY namespace, before or after the plain ones, with any value (valid address or not),
+change neither the reply, nor the callback's arguments, nor the verdict. -/
+theorem C12_bind_reply_attrs (pj : String → Option String) (remote : String) (attrs : List Bind.Attr)
+    (reqRes : Option String) (cb : Callback) :
+    (∀ q, (serverA pj remote attrs reqRes cb).reply = some q →
+      q.id = strOf (iqField attrs "id") ∧
+      q.to = addrOf (addrField pj (iqField attrs "from")) ∧
+      q.src = addrOf (addrField pj (iqField attrs "to"))) ∧
+    (∀ attrs', attrs'.filter Bind.Attr.own = attrs.filter Bind.Attr.own →
+      serverA pj remote attrs' reqRes cb = serverA pj remote attrs reqRes cb) := by
+  constructor
+  · intro q hq
+    unfold serverA at hq
+    by_cases hinv : addrField pj (iqField attrs "to") = .invalid ∨ addrField pj (iqField attrs "from") = .invalid
+    · simp [server, hinv] at hq
+    · have h1 : addrField pj (iqField attrs "to") ≠ .invalid := fun h => hinv (Or.inl h)
+      have h2 : addrField pj (iqField attrs "from") ≠ .invalid := fun h => hinv (Or.inr h)
+      exact (C12_bind_reply remote _ reqRes _ _ cb h1 h2).1 q hq
+  · intro attrs' h
+    unfold serverA
+    rw [iqField_own attrs' "id", iqField_own attrs' "to", iqField_own attrs' "from", h,
+      ← iqField_own, ← iqField_own, ← iqField_own]
+
+/-- the same for the initiating side: which reply counts as "the answer to my request" (id), and
+as what (type), is read from the unqualified attributes only -/
+theorem C12_bind_adopt_attrs (addr reqId : String) (attrs attrs' : List Bind.Attr) (jid : JidField)
+    (c : Option String) (h : attrs'.filter Bind.Attr.own = attrs.filter Bind.Attr.own) :
+    client addr (replyA reqId attrs' jid c) = client addr (replyA reqId attrs jid c) ∧
+    ((client addr (replyA reqId attrs jid c)).ready = true →
+      iqField attrs "id" = some reqId ∨ (iqField attrs "id" = none ∧ reqId = "")) := by
+  constructor
+  · unfold replyA
+    rw [iqField_own attrs' "id", iqField_own attrs' "type", h, ← iqField_own, ← iqField_own]
+  · intro hr
+    have := ((C12_bind_adopt addr (replyA reqId attrs jid c)).1.mp hr)
+    obtain ⟨j, c', hj⟩ := this
+    simp only [replyA, Reply.iq.injEq, beq_iff_eq] at hj
+    cases hid : iqField attrs "id" with
+    | none => right; simp [hid, strOf] at hj; exact ⟨rfl, hj.1⟩
+    | some v => left; simp [hid, strOf] at hj; rw [hj.1]
+
+/-- non-vacuity and the failure the repair removed: request `<iq xmlns:p=… p:id='evil' id='real'
+type='set'>`: the model answers `real`; the lookup by local name in any namespace (`attr.Get`, the
+code before the repair) answers `evil` -/
+theorem C12_bind_any_namespace_lookup_fails :
+    ∃ attrs : List Bind.Attr,
+      (∀ q, (serverA some "a@b" attrs none .default).reply = some q → q.id = "real") ∧
+      (serverA some "a@b" attrs none .default).reply ≠ none ∧
+      anyNsField attrs "id" = some "evil" ∧ iqField attrs "id" = some "real" :=
+  ⟨[⟨"xmlns", "p", "urn:p"⟩, ⟨"urn:p", "id", "evil"⟩, ⟨"", "id", "real"⟩, ⟨"", "type", "set"⟩],
+    by decide, by decide, by decide, by decide⟩
+
 /-- every random value `serveAll k` assigns was drawn at or after position `k`, and they
 increase strictly in the order of the sessions -/
 theorem randomIds_serveAll (rs : List Req) : ∀ k,
